@@ -2,7 +2,10 @@ package main
 
 // Property-specific scenario families built from the generators of flowgen.go.
 
-import "strconv"
+import (
+	"strconv"
+	"strings"
+)
 
 // C02 in batches: every item of a batch gets the node's retry budget and fallback (sequential, one
 // worker, and c=2 in continue mode where the outcome does not depend on the schedule)
@@ -156,6 +159,73 @@ func genBatchFlow(r *rng, thorough bool, emit func(FlowScenario)) {
 		sc := randFlow(r, p)
 		sc.Kind = r.pick([]string{"canceled", "deadline", "cause", "fardeadline", "child"})
 		withInjections(sc, "cancel", emit)
+	}
+}
+
+// C19flow: the same node configured through two different construction styles (all settings and functions as
+// constructor options / all through builder methods / the two mixtures; for batch nodes also the bare *BatchNode and
+// the exec function installed on the CustomNode), run on the same scripts: node ids apart, the two runs must be
+// observably the same — attempts, waits' effect on order, payloads seen by every function, outcome.
+func genC19Flow(r *rng, thorough bool, emit func(FlowScenario)) {
+	t := &tokGen{r: r}
+	builds := []string{"option", "builder", "mixed", "mixed2"}
+	reps := 1
+	if thorough {
+		reps = 6
+	}
+	for rep := 0; rep < reps; rep++ {
+		for _, k := range funcStyleKinds() {
+			if k.Build != "option" {
+				continue
+			}
+			for _, N := range []int{1, 2, 3} {
+				a, b := k, k
+				a.Budget, b.Budget = N, N
+				a.Build = builds[r.intn(len(builds))]
+				for b.Build = builds[r.intn(len(builds))]; b.Build == a.Build; {
+					b.Build = builds[r.intn(len(builds))]
+				}
+				att := N + 1
+				m := uint(r.next()) & ((1 << uint(att)) - 1)
+				if r.chance(30) {
+					m = 0
+				}
+				t.next, t.errN = r.intn(30), r.intn(20)
+				s0 := t.leafScript(0, 0, true, m, att, r.chance(60), postStr(t, r.intn(3), "a"))
+				if a.ExecS == "res" && r.chance(40) {
+					// a Result-style exec function that reports its failure as an error Result with a nil error
+					for k2, e := range s0.Exec {
+						if !strings.HasPrefix(e, "!") {
+							s0.Exec[k2] = "xu" + strconv.Itoa(t.err())
+							break
+						}
+					}
+				}
+				s1 := s0
+				s1.N = 1
+				s1.Exec = append([]string{}, s0.Exec...)
+				emit(FlowScenario{Kind: "canceled", Ctx0: "live", Nodes: []NodeDef{{ID: 0, Leaf: &a}, {ID: 1, Leaf: &b}},
+					LeafScripts: []LeafScript{s0, s1}, BatchScripts: []BatchScript{},
+					Steps: []Step{{Run: ip(0)}, {Run: ip(1)}}, Pairs: [][]int{{0, 1}}})
+			}
+		}
+		// batch nodes
+		bbuilds := []string{"option", "builder", "mixed", "mixed2", "bare"}
+		vias := []string{"", "copt", "cbuilder"}
+		for i := 0; i < 150; i++ {
+			cfg := randBatchCfg(r, false)
+			cfg.HasPost = true
+			a, b := cfg, cfg
+			a.Build, b.Build = bbuilds[r.intn(len(bbuilds))], bbuilds[r.intn(len(bbuilds))]
+			a.ExecVia, b.ExecVia = vias[r.intn(len(vias))], vias[r.intn(len(vias))]
+			t.next, t.errN = r.intn(30), r.intn(20)
+			s0 := randBatchScript(t, 0, 0, &a, 1+r.intn(4), 35, postStr(t, r.intn(3), "a"))
+			s1 := s0
+			s1.N = 1
+			emit(FlowScenario{Kind: "canceled", Ctx0: "live", Nodes: []NodeDef{{ID: 0, Batch: &a}, {ID: 1, Batch: &b}},
+				LeafScripts: []LeafScript{}, BatchScripts: []BatchScript{s0, s1},
+				Steps: []Step{{Run: ip(0)}, {Run: ip(1)}}, Pairs: [][]int{{0, 1}}})
+		}
 	}
 }
 
